@@ -74,8 +74,8 @@ chk("C19", "model_checking",
     "every bound). Every enumerated criteria pair goes through the real SearchCriteria.And and every sequence of <=2 (quick) / <=3 (thorough) keys of a 25-key catalogue "
     "goes as a raw SEARCH line through a real imapserver connection; the recorded struct is judged by TLC (SearchAlgTrace) on every message of a universe with a "
     "message on each side of every bound. Random criteria trees (depth <=3) and key lists (<=8) are recorded and judged the same way.",
-    "Oracle is entirely in TLA+; the harness only builds, calls and records. Bounded-exhaustive over the stated catalogues and random beyond them. ModSeq, '$', "
-    "CHARSET and dynamic '*' sets are excluded. Operands are built in five time zones at any hour: the calendar date in the value's own location is what the "
+    "Oracle is entirely in TLA+; the harness only builds, calls and records. Bounded-exhaustive over the stated catalogues and random beyond them. ModSeq, "
+    "CHARSET and dynamic '*' sets are excluded; '$' (the saved search result) is a UID set value of the specification. Operands are built in five time zones at any hour: the calendar date in the value's own location is what the "
     "specification's day numbers stand for.",
     "TLA+ reference operators + TLC-enumerated vectors through the real code; recorded-result validation by TLC",
     "DESIGN.md 3 (C19)", "tlc+harness/cmd/searchalg")
